@@ -8,6 +8,7 @@ counting is not accused, while one that keeps its handle alive is.
 """
 import builtins
 import errno
+import os
 import io
 import random
 from datetime import datetime, timedelta
@@ -137,7 +138,14 @@ class SimFile(io.TextIOBase):
 
     def flush(self):
         if self._buf and not self._closed_for_flush():
-            self.fs.files[self.sim_name] = self.fs.files.get(self.sim_name, "") + "".join(self._buf)
+            tail = getattr(self, "_keep_tail", None)
+            if tail is None:
+                self.fs.files[self.sim_name] = self.fs.files.get(self.sim_name, "") + "".join(self._buf)
+            else:
+                # opened through os.open without O_TRUNC: what is written replaces the old bytes from offset 0, the rest
+                # of the old content stays
+                self._written = getattr(self, "_written", "") + "".join(self._buf)
+                self.fs.files[self.sim_name] = self._written + tail[len(self._written):]
             self._buf = []
 
     def _closed_for_flush(self):
@@ -197,6 +205,7 @@ class SimFS:
     def clear(self):
         self.files = {}
         self.open_handles = {}
+        self.fd_table = {}
         self.plans = {}
         self.written_log = {}
         self.write_error_at = None
@@ -243,9 +252,60 @@ class SimFS:
         self.open_handles[id(f)] = name
         return f
 
+    # -- the os-level way of opening a file (os.open + os.fdopen) ---------------------------------------------
+    def os_open(self, path, flags, mode=0o777, **kw):
+        if not is_sim(path):
+            return os.open(path, flags, mode, **kw)
+        name = norm(path)
+        if name in self.files:
+            if flags & os.O_CREAT and flags & os.O_EXCL:
+                raise SimFileExists(errno.EEXIST, "File exists", str(path))
+        elif not flags & os.O_CREAT:
+            raise SimFileNotFound(errno.ENOENT, "No such simulated file", str(path))
+        keep = "" if (flags & os.O_TRUNC or name not in self.files) else self.files[name]
+        self.files[name] = keep
+        fd = -(1000 + len(self.fd_table))          # simulated descriptors are negative numbers
+        self.fd_table[fd] = (name, keep)
+        self.w.count("sim.os_opens")
+        return fd
+
+    def os_fdopen(self, fd, mode="r", *args, **kwargs):
+        if fd not in self.fd_table:
+            return os.fdopen(fd, mode, *args, **kwargs)
+        name, keep = self.fd_table.pop(fd)
+        self.opens += 1
+        if "r" in mode and "+" not in mode:
+            f = SimFile(self, name, mode, self.files[name])
+        else:
+            self.written_log[name] = []
+            f = SimFile(self, name, mode)
+            f._keep_tail = keep
+            if not keep:
+                self.files[name] = ""
+        f.line_buffered = kwargs.get("buffering", -1) == 1
+        self.open_handles[id(f)] = name
+        return f
+
     def complete(self, name):
         """Stored text equals the concatenation of everything written to the path since it was opened."""
         return self.files.get(name, "") == "".join(self.written_log.get(name, []))
+
+
+class SimOs:
+    """Stands in for the ``os`` module inside the modules that touch files: everything is the real module's, except
+    that open / fdopen of sim:// paths go to the simulated file system."""
+
+    def __init__(self, fs):
+        self._fs = fs
+
+    def __getattr__(self, name):
+        return getattr(os, name)
+
+    def open(self, path, flags, mode=0o777, **kw):
+        return self._fs.os_open(path, flags, mode, **kw)
+
+    def fdopen(self, fd, *args, **kwargs):
+        return self._fs.os_fdopen(fd, *args, **kwargs)
 
 
 _MODULES_OPEN = [
@@ -263,6 +323,8 @@ def install(w):
     for m in _MODULES_OPEN:
         mod = importlib.import_module(m)
         mod.open = fs.open
+        if "os" in mod.__dict__:
+            mod.os = SimOs(fs)     # (only modules that use the os module at all)
     importlib.import_module("spydrnet.composers.eblif.eblif_composer").Path = SimPath
     importlib.import_module("spydrnet.composers.edif.composer").datetime = SimDatetime(lambda: w.clock)
     w.fs = fs
